@@ -999,7 +999,10 @@ def h_arrange(spec, target, doc_path, handle, base_spec=None):
     i = target.get("index", 0)
     base_world = None
     if base_spec is not None:
-        base_world = World(base_spec)  # validated first, same identifiers
+        try:
+            base_world = World(base_spec)  # validated first, same identifiers
+        except Exception as exc:
+            return {**_outcome_of(exc), "base": True}
         for kind in ("evaluation", "annotation_project"):
             try:
                 base_world.root(kind)
